@@ -4,7 +4,8 @@
    from /repo).  Spec: Spec/TxWireSpec.v (legacy / BIP144 wire format written independently).
    tx_wf = every field in the range of its wire width (u32 version/lock_time/index/sequence, u64 amounts,
    32-byte hashes; list lengths below 2^64, which is true of every real list). *)
-From PV Require Import Base.Bytes Base.Outcome Base.Varint Gen.GenTxConsts Model.TxWire Spec.TxWireSpec Proofs.TxWireP.
+From PV Require Import Base.Bytes Base.Outcome Base.Varint Gen.GenTxConsts Model.TxWire Model.TxObject Spec.TxWireSpec
+  Proofs.TxWireP Proofs.TxObjectP.
 Local Open Scope Z_scope.
 
 (* compact sizes: both directions *)
@@ -145,6 +146,53 @@ Theorem C07_ltc_parses_wire_format : forall (t : tx) (r : bytes), tx_wf t -> tx_
 Proof. exact ltc_parses_wire. Qed.
 Print Assumptions C07_ltc_parses_wire_format.
 
+(* ---- histories of one Tx object (Model/TxObject.v): observe (as_bin / as_hex / hash / w_hash / id / w_id /
+   has_witness_data / ...), mutate (set_witness, direct assignment of a witness, script, outpoint, sequence, version,
+   lock time, append / pop / clear of inputs and outputs, unspents), observe again.  `run H ops ob` is the list of
+   results of the operations `ops` applied in order to the object `ob`. *)
+
+(* history independence: the last observation depends on the mutators of the history only - whatever was serialised
+   or hashed from the object before (ops2 may contain no observation at all: a fresh object brought to the same fields) *)
+Theorem C07_history_independent : forall (H : bytes -> bytes) (ops1 ops2 : list op) (o : obs) (ob : txobj),
+  filter is_mut ops1 = filter is_mut ops2 ->
+  last (run H (ops1 ++ [Obs o]) ob) (Raise E_OTHER) = last (run H (ops2 ++ [Obs o]) ob) (Raise E_OTHER).
+Proof. exact history_independent. Qed.
+Print Assumptions C07_history_independent.
+
+Theorem C07_history_last_observation : forall (H : bytes -> bytes) (ops : list op) (o : obs) (ob : txobj),
+  run H (ops ++ [Obs o]) ob = run H ops ob ++ [observe H o (state_after ops ob)].
+Proof. exact run_last. Qed.
+Print Assumptions C07_history_last_observation.
+
+(* after ANY history whose current fields are in range, as_bin() is the wire format of the CURRENT fields (extended
+   iff some witness is non-empty now), hash() hashes their legacy form and w_hash() their wire format *)
+Theorem C07_history_wire_format : forall (H : bytes -> bytes) (ops : list op) (ob : txobj),
+  let t := ob_tx (state_after ops ob) in tx_wf t ->
+  exists b, last (run H (ops ++ [Obs (OAsBin false false true)]) ob) (Raise E_OTHER) = Ret (RBytes b) /\ wire_format t b.
+Proof. exact history_wire_format. Qed.
+Print Assumptions C07_history_wire_format.
+
+Theorem C07_history_ids : forall (H : bytes -> bytes) (ops : list op) (ob : txobj),
+  let t := ob_tx (state_after ops ob) in tx_wf t ->
+  last (run H (ops ++ [Obs (OHash None)]) ob) (Raise E_OTHER) = Ret (RBytes (H (ser_legacy t))) /\
+  exists b, wire_format t b /\ last (run H (ops ++ [Obs OWHash]) ob) (Raise E_OTHER) = Ret (RBytes (H b)).
+Proof. exact history_ids. Qed.
+Print Assumptions C07_history_ids.
+
+(* set_witness and the plain assignment tx.txs_in[i].witness = w (what Tx.parse does) are the same mutation *)
+Theorem C07_set_witness_is_assignment : forall (i : nat) (w : list bytes) (ob : txobj),
+  apply_mut (MSetWitness i w) ob = apply_mut (MAssignWitness i w) ob.
+Proof. exact set_witness_is_assignment. Qed.
+Print Assumptions C07_set_witness_is_assignment.
+
+(* ties for the above: the generated source scan finds no store into self / module state / caching decorator in any
+   observer method of Tx (every coin class), TxIn, TxOut, Spendable; every coin class hashes the stripped (hash) and
+   the full (w_hash) serialisation with double SHA-256, Groestlcoin with single SHA-256 (probed on a transaction
+   that carries witness data) *)
+Theorem C07_observers_are_stateless : object_table_facts.
+Proof. exact object_facts. Qed.
+Print Assumptions C07_observers_are_stateless.
+
 (* ties to /repo: the generated format strings / codec kinds are the ones the proofs assume, and the shared
    compact-size model reproduces the live encoder on the dumped probe vectors *)
 Theorem C07_tables : tx_table_facts.
@@ -175,6 +223,18 @@ Example C07_example_canonical :
              (* the same bytes with the input count written non-minimally (fd 02 00) are not canonical *)
              && match decode_strict (firstn 6 b ++ [xfd; x02; x00] ++ skipn 7 b) with None => true | _ => false end
              && match parse_tx true (firstn 6 b ++ [xfd; x02; x00] ++ skipn 7 b) with Ret (t, r) => (length (tx_ins t) =? 2)%nat | _ => false end
+  | _ => false
+  end = true.
+Proof. vm_compute. reflexivity. Qed.
+
+(* a history in the family of the witness-memoisation defect: serialise a legacy transaction, assign a witness to
+   input 0, serialise again - the second serialisation is the extended form; clear it again - legacy *)
+Example C07_example_history :
+  let ob := mk_obj (mk_tx 1 [mk_txin (repeatb x11 32) 0 [] 0 []] [mk_txout 5 [x51]] 0) [] in
+  match run (fun b => b) [Obs (OAsBin false false true); Mut (MAssignWitness 0 [[x30]]); Obs (OAsBin false false true);
+                          Obs OHasWitness; Mut (MSetWitness 0 []); Obs (OAsBin false false true); Mut (MSetWitness 1 [])] ob with
+  | [Ret (RBytes b1); Ret RNone; Ret (RBytes b2); Ret (RBool true); Ret RNone; Ret (RBytes b3); Raise E_INDEX] =>
+    bytes_eqb (firstn 2 (skipn 4 b2)) [x00; x01] && bytes_eqb b1 b3 && (length b2 =? length b1 + 5)%nat
   | _ => false
   end = true.
 Proof. vm_compute. reflexivity. Qed.
